@@ -135,6 +135,8 @@ def run(tier='quick'):
     nfields = 0
     global _CTX
     _CTX = (prog, cg, eff, order)
+    _LOSSY.clear()
+    _LOSSY.update(lossy_members(prog))
     import multiprocessing
     import os as _os
     nfields = 0
@@ -146,6 +148,14 @@ def run(tier='quick'):
             getattr(chk, c[0])(*c[1], **c[2])
     chk.extra['representative_versions'] = ['%s %s' % (g, order[v]) for g, v in reps]
     rowrules.fetch_widths(prog, chk, R2, maps + tmaps)
+    R9 = chk.rule('R9', 'update() and create_track rely on the transaction guard to undo a write that is rejected '
+                        'part-way (so that a snapshot never shows a mixture): the guard begins, commits and rolls '
+                        'back exactly when not committed', floor=4)
+    from . import c14
+    c14._guard_shape(prog, eff, chk, R9)
+    R8 = chk.rule('R8', 'a reader that fills an optional field from a primary source and a fallback never replaces a '
+                        'value already found by one that may be absent', floor=1)
+    no_clobber(prog, chk, R8)
     R7 = chk.rule('R7', 'no member update is made on a local copy that is then dropped (conversion layer between '
                         'snapshot fields and rows / blobs)', floor=20)
     rowrules.lost_updates(prog, chk, R7)
@@ -225,9 +235,116 @@ def _range_worker(args):
                               '%s: update() writes %s from %s, and snapshot() reads that location for %s, '
                               'which does not write it: %s written through a snapshot changes what is read '
                               'back for %s' % (inst, S(clash), x, y, x, y))
+        # (f) a location whose encoding cannot represent every value of X (its "absent" constant is
+        # also a legal value: C03-S4) must be complemented on the read side: the snapshot reads every
+        # other location update() writes for X, or the colliding value reads back as absent
+        lossy = [k for k in W if (gen, k[3]) in _LOSSY and k[3]]
+        if lossy:
+            ignored = {k for k in W if not any(_same_or_inside(k, r) or _same_or_inside(r, k) for r in R)}
+            if ignored:
+                chk.violation(R4, '%s|%s|lossy location not complemented: %s ignored' % (gen, x, ','.join(S(ignored))), where_s,
+                              '%s: update() stores %s in %s; the encoding of %s cannot represent every value '
+                              '(%s), and snapshot() does not read %s, the location that could recover it: the '
+                              'colliding value reads back as absent' % (
+                                  inst, x, S(W), S(lossy), _LOSSY[(gen, lossy[0][3])], S(ignored)))
+            else:
+                chk.ok(R4, inst + ' lossy location %s complemented by every other written location' % S(lossy), where_s)
     if gen == 'v2':
         _role_pairing(prog, chk, R4, M, asnap, aupd, ver)
     return chk.calls, nfields
+
+
+_LOSSY = {}
+
+
+def no_clobber(prog, chk, rid, min_instances=1):
+    """An optional result field that a reader assigns at more than one place (a primary source and
+    a fallback - 1.x key: performance blob, then the metadata row) must never have a value that
+    was already found replaced by one that may be absent.  Every assignment after the first (in
+    source order) is therefore either guarded by a test that the field is still empty, guarded by
+    a test that the new value is present, or assigns a value that is present by construction."""
+    from .. import guards
+    n = 0
+    for f in prog.functions.values():
+        if f.body is None or f.is_pattern or not prog.in_repo(f.file) or f.name != 'snapshot':
+            continue
+        parent = {}
+        for x in walk(f.body):
+            for c in children(x):
+                parent[id(c)] = x
+        assigns = {}
+        for x in walk(f.body):
+            lhs = rhs = None
+            if x.get('kind') == 'BinaryOperator' and x.get('opcode') == '=':
+                lhs, rhs = children(x)
+            elif x.get('kind') == 'CXXOperatorCallExpr':
+                c = children(x)
+                if (strip(c[0]).get('referencedDecl') or {}).get('name') == 'operator=' and len(c) == 3:
+                    lhs, rhs = c[1], c[2]
+            if lhs is None:
+                continue
+            l = strip(lhs)
+            if l.get('kind') != 'MemberExpr' or 'optional' not in (l.get('type') or ''):
+                continue
+            pth = guards.canon(lhs)
+            if pth:
+                assigns.setdefault(pth, []).append((x, lhs, rhs))
+        for pth, lst in sorted(assigns.items()):
+            if len(lst) < 2:
+                continue
+            lst.sort(key=lambda t: ((t[0].get('loc') or [0, 0, 0])[1:3] if t[0].get('loc') else (0, 0)))
+            for (x, lhs, rhs) in lst[1:]:
+                n += 1
+                ok = guards._rhs_engaged(rhs)
+                why = 'assigns a value present by construction' if ok else ''
+                rp = guards.canon(rhs)
+                y = x
+                while not ok and id(y) in parent:
+                    y = parent[id(y)]
+                    if y.get('kind') == 'IfStmt':
+                        cond = children(y)[0]
+                        in_then = any(id(z) == id(x) for z in walk(children(y)[1])) if len(children(y)) > 1 else False
+                        facts_t = guards.truthy(cond) if in_then else guards.falsy(cond)
+                        facts_f = guards.falsy(cond) if in_then else guards.truthy(cond)
+                        if ('E:' + pth) in facts_f and ('E:' + pth) not in facts_t:
+                            ok, why = True, 'guarded by a test that the field is still empty'
+                        elif rp and ('E:' + rp) in facts_t:
+                            ok, why = True, 'guarded by a test that the new value is present'
+                short = '::'.join((f.qualname or '').split('::')[-2:])
+                fld = pth.split(':')[-1]
+                inst = '%s: later assignment of %s at %s' % (short, fld, locstr(x))
+                if ok:
+                    chk.ok(rid, inst + ' ' + why, locstr(x))
+                else:
+                    chk.violation(rid, '%s|%s overwritten by a possibly absent value' % (short, fld), locstr(x),
+                                  '%s replaces whatever an earlier source found with a value that may be absent '
+                                  '(no guard on the field being empty or on the new value being present): a value '
+                                  'only the earlier source can represent reads back as absent' % inst)
+    if n < min_instances:
+        chk.fail_broken('%s: no reader with a fallback assignment found (expected >= %d)' % (rid, min_instances))
+
+
+def lossy_members(prog):
+    """{(generation, blob member): why} for codec members whose absent-encoding collides with a legal
+    value, as decided by C03-S4 (run here into a recorder, nothing is reported)."""
+    from . import c03
+    from .c06 import _Recorder
+    from .. import codec
+    rec = _Recorder()
+    ex = codec.Extractor(prog)
+    for name, ge, gd in codec.all_grammars(prog):
+        if ge.unknown or gd.unknown:
+            continue
+        c03._sentinels(prog, ex, rec, 'S4', name, ge, gd)
+    out = {}
+    for c in rec.calls:
+        if c[0] == 'violation':
+            key = c[1][1]
+            parts = key.split('|')
+            if len(parts) == 2 and parts[1] != 'empty-slot':
+                gen = parts[0].split()[0]
+                out[(gen, parts[1])] = c[1][3][:160] if len(c[1]) > 3 else key
+    return out
 
 
 _CTX = None
